@@ -1,6 +1,7 @@
 import Driver.Common
 import RxModel.Vts
 import RxModel.VtsPeriodic
+import RxModel.VtsTimer
 open Lean Drv
 
 namespace DrvVts
@@ -18,7 +19,7 @@ def viaOfStr : String → Except String Via
   | "outer" => pure .outer
   | s => throw s!"bad via {s}"
 
-/-- action = {"id": n, "steps": [step…], "raise": null | "name"};
+/-- action = {"id": n, "steps": [step…], "raise": null | "name", "ret": absent | null | child id};
 step = ["sched", via, mode, t, action] | ["cancel", id] | ["stop"] | ["sleep", t]
 | ["advance_to", t, caught] | ["advance_by", d, caught] | ["start"]   (re-entrant calls from inside the action) -/
 partial def actOfJson (j : Json) : Except String (Nat × Act) := do
@@ -26,7 +27,10 @@ partial def actOfJson (j : Json) : Except String (Nat × Act) := do
   let steps ← getArr j "steps"
   let last : Act := match j.getObjValAs? String "raise" with
     | .ok e => .raise e
-    | .error _ => .done
+    | .error _ =>
+      match j.getObjValAs? Nat "ret" with
+      | .ok c => .ret c          -- the action returns the handle of child `c`
+      | .error _ => .done
   let body ← steps.foldrM (init := last) fun st acc => do
     match st with
     | .arr #[.str "sched", .str via, .str m, t, child] =>
@@ -175,6 +179,24 @@ def handle (op : String) (j : Json) : Except String Json := do
       ("enabled", .bool s.enabled),
       ("pending", num s.queue.length),
       ("hlog", Json.arr (s.hlog.map Json.str).toArray)])
+  | "tmr_script" =>
+    -- timer(duetime, period), duetime != period: {"clock", "due0", "period", "blockers": [[t, sleep]..], "obs_sleep": [..], "T"}
+    let clock ← getInt j "clock"
+    let due0 ← getInt j "due0"
+    let period ← getInt j "period"
+    let T ← getInt j "T"
+    let blockers ← (← getArr j "blockers").mapM fun b =>
+      match b with
+      | .arr #[t, sl] => do pure ((← t.getInt?), (← sl.getNat?))
+      | _ => throw "bad blocker"
+    let obs ← (← getArr j "obs_sleep").mapM (·.getNat?)
+    let cost : Nat → Nat := fun k => if obs.isEmpty then 0 else obs[k % obs.length]!
+    let s0 := Tmr.subscribe (blockers.foldl (fun s b => Tmr.scheduleBlock s b.1 b.2) { clock := clock }) due0
+    let (s, o) := Tmr.advanceTo period cost T s0
+    pure (Json.mkObj [
+      ("seen", Json.arr (s.log.map fun r => Json.arr #[num r.at_, num r.k]).toArray),
+      ("clock", num s.clock),
+      ("out", .str (match o with | .ok => "ok" | .stuck => "stuck" | .raised e => e))])
   | "pq_script" =>
     pure (Json.arr (← pqScript (← getArr j "ops")).toArray)
   | _ => throw s!"unknown op {op}"
